@@ -39,6 +39,16 @@ func c15Pool() []system.Route {
 	}
 }
 
+func pick15(os []ndp.Option) []*ndp.RouteInformation {
+	var res []*ndp.RouteInformation
+	for _, o := range os {
+		if ri, ok := o.(*ndp.RouteInformation); ok {
+			res = append(res, ri)
+		}
+	}
+	return res
+}
+
 func wRoutesCoq(rs []system.Route) string {
 	items := make([]string, 0, len(rs))
 	for _, r := range rs {
@@ -63,11 +73,18 @@ func TestVerifC15(t *testing.T) {
 	emit := func(id string, rs []system.Route, mode string, r *verifh.Rand, tags []string) {
 		lt, _, dep, epoch, now := verifw.Lifetimes(r)
 		prf := verifh.Pick(r, []ndp.Preference{ndp.Low, ndp.Medium, ndp.High})
+		// The clock either stands still during one Apply or advances by `tick` on every reading: "all with the
+		// stanza's lifetime" means every option expanded from the stanza carries the lifetime at ONE instant
+		// (the first reading, c_now), also when a seconds boundary or the expiry falls between two readings.
+		tick, reads := int64(0), int64(0)
+		if r.Chance(50) {
+			tick = verifh.Pick(r, []int64{1, 1e6, 1e9, 7e9, lt / 2})
+		}
 		p := &plugin.Route{
 			Auto: true, Prefix: netip.PrefixFrom(netip.IPv6Unspecified(), 0),
 			Preference: prf, Lifetime: time.Duration(lt),
 			Deprecated: dep, Epoch: time.Unix(0, epoch),
-			TimeNow: func() time.Time { return time.Unix(0, now) },
+			TimeNow: func() time.Time { reads++; return time.Unix(0, now+(reads-1)*tick) },
 		}
 		routesCoq := verifh.Some(wRoutesCoq(rs))
 		canonical := true
@@ -89,14 +106,20 @@ func TestVerifC15(t *testing.T) {
 		ra := &ndp.RouterAdvertisement{}
 		err := p.Apply(ra)
 		c := verifh.Case{ID: id, Tags: append(tags, "source:"+mode, fmt.Sprintf("n:%d", min(len(rs), 8)),
-			"canonical:"+verifh.B(canonical), "deprecated:"+verifh.B(dep))}
+			"canonical:"+verifh.B(canonical), "deprecated:"+verifh.B(dep), fmt.Sprintf("clock-ticks-within-apply:%v", tick > 0))}
+		if nr := len(pick15(ra.Options)); dep && tick > 0 && nr >= 2 {
+			c.Tags = append(c.Tags, "deprecated+ticking-clock+several-routes")
+			if rem := epoch + lt - now; rem > 0 && rem <= int64(nr)*tick {
+				c.Tags = append(c.Tags, "expiry-falls-within-apply")
+			}
+		}
 		if err != nil && len(ra.Options) != 0 {
 			c.ImplViolation = "Apply returned an error but left options in the RA"
 		}
 		obsCoq, obsJ := verifw.Result(ra, err)
 		c.Coq = verifh.App("mkCase", verifw.Pref(prf), verifh.Z(lt), verifh.B(dep), verifh.Z(epoch), verifh.Z(now), routesCoq, obsCoq)
 		c.Input = map[string]any{"routes": wRoutesJSON(rs), "source": mode, "preference": verifw.Pref(prf),
-			"lifetime_ns": lt, "deprecated": dep, "epoch_ns": epoch, "now_ns": now}
+			"lifetime_ns": lt, "deprecated": dep, "epoch_ns": epoch, "now_ns": now, "clock_tick_per_reading_ns": tick}
 		c.Observed = obsJ
 		out.Emit(c)
 	}
